@@ -3,8 +3,16 @@ package gold
 
 import (
 	"bytes"
+	"context"
+	"crypto/rand"
 	"encoding/json"
 	"fmt"
+	"github.com/google/gce-tcb-verifier/cmd"
+	edk2pb "github.com/google/gce-tcb-verifier/proto/scrtmversion"
+	"github.com/spf13/cobra"
+	"io"
+	"os"
+	"path/filepath"
 	"sort"
 	"sync"
 	"time"
@@ -19,6 +27,7 @@ import (
 	"google.golang.org/protobuf/proto"
 
 	"verifharness/fx"
+	"verifharness/meas"
 	"verifharness/rp"
 	"verifharness/vk"
 )
@@ -267,7 +276,7 @@ func RunC06(run *vk.Run) {
 		stride = 3
 	}
 	rp.Parallel(len(em.Cases), func(i int) {
-		if (i+int(run.Seed))%stride != 0 {
+		if !vk.Pick(i, run.Seed, stride) {
 			return
 		}
 		var c struct {
@@ -284,6 +293,8 @@ func RunC06(run *vk.Run) {
 			run.Sample(c.Req)
 		}
 	})
+	checkCommandLine(run)
+	checkOutOfOrderSections(run)
 	// failure injection: a measurement that cannot be computed must yield no document
 	ca, signer, _ := fx.DevAuthority()
 	kc := &keys.Context{CA: ca, Signer: signer}
@@ -314,4 +325,199 @@ func RunC06(run *vk.Run) {
 	}
 	run.Exhaustive = !run.IsQuick()
 	run.Rule = "every request row of Golden.tla (technology subsets x VMSA counts {all,1,2,240} x product x 5 shape lists x early accept x SVSM x provenance = 960; quick a seeded third) is run through the real GoldenMeasurement and SignDoc on a 2 MiB image; every entry is compared with a separate single-configuration call of sev.LaunchDigest / tdx.MRTD, the digest with SHA-384, the remaining fields with the request; plus failure injection with images valid for one technology only"
+}
+
+// checkOutOfOrderSections: an image whose SNP metadata lists its sections out of address order; every
+// signed SNP entry is compared with the launch digest of the definition (the C04 oracle), not with a
+// second call of the library.
+func checkOutOfOrderSections(run *vk.Run) {
+	img, ref, err := meas.OutOfOrderImage(run, run.Seed*17+3)
+	if err != nil {
+		run.Infra(err)
+		return
+	}
+	ca, signer, _ := fx.DevAuthority()
+	kc := &keys.Context{CA: ca, Signer: signer}
+	for _, prod := range []string{"Milan", "Genoa"} {
+		for _, vmsas := range []uint32{0, 2} {
+			ec := &endorse.Context{Image: img, ClSpec: 7, Timestamp: time.Date(2025, 3, 4, 5, 6, 7, 0, time.UTC),
+				SevSnp: &sev.SnpEndorsementRequest{Svn: 1, LaunchVmsas: vmsas, Product: product(prod), ImageID: imageID}}
+			g, gerr := endorse.GoldenMeasurement(endorse.NewContext(fx.Ctx(kc, false, false), ec))
+			run.Case(fmt.Sprintf("out-of-order:%s:%d", prod, vmsas), true)
+			if gerr != nil {
+				run.Violation("golden-fails", fmt.Sprintf("GoldenMeasurement fails on an image whose SNP sections are declared out of address order (%s, vmsas %d): %v", prod, vmsas, gerr), nil)
+				continue
+			}
+			for c, m := range g.GetSevSnp().GetMeasurements() {
+				if !bytes.Equal(m, ref(int(c), prod)) {
+					run.Violation("snp-value-wrong:declared-order", fmt.Sprintf("image with SNP sections declared out of address order, %s: the entry for %d VMSAs is not the launch measurement of that image (the definition measures sections in declared order)", prod, c), map[string]any{"product": prod, "count": c})
+					break
+				}
+			}
+		}
+	}
+}
+
+// ---- the request as the endorse command builds it ----
+
+var errStopAfterDoc = fmt.Errorf("stop after the document (harness)")
+
+// docComp sits in the extra slot of the endorse sub-command: it builds the golden document from the
+// request the command's own flag handling has prepared and stops the command before anything is signed.
+type docComp struct{ doc *epb.VMGoldenMeasurement }
+
+func (d *docComp) AddFlags(*cobra.Command)                          {}
+func (d *docComp) PersistentPreRunE(*cobra.Command, []string) error { return nil }
+func (d *docComp) InitContext(ctx context.Context) (context.Context, error) {
+	doc, err := endorse.GoldenMeasurement(ctx)
+	if err != nil {
+		return nil, err
+	}
+	d.doc = doc
+	return nil, errStopAfterDoc
+}
+
+// checkCommandLine: the security version number a document carries is the one of the SCRTM version
+// file next to the image, for every requested technology (and only requested technologies appear).
+func checkCommandLine(run *vk.Run) {
+	for _, tech := range []string{"snp", "tdx", "both"} {
+		for _, side := range []string{"none", "sibling", "suffix"} {
+			dir, err := os.MkdirTemp("", "vk-c06-")
+			if err != nil {
+				run.Infra(err)
+				return
+			}
+			fw := filepath.Join(dir, "fw.fd")
+			os.WriteFile(fw, img2m, 0o600)
+			want := uint32(0)
+			ver := func(v uint32) []byte {
+				b, _ := proto.Marshal(&edk2pb.SCRTMVersion{Version: edk2pb.FirmwareVersion_Version(v)})
+				return b
+			}
+			switch side {
+			case "sibling":
+				os.WriteFile(filepath.Join(dir, "fw_scrtm_ver.pb"), ver(7), 0o600)
+				want = 7
+			case "suffix":
+				os.WriteFile(fw+".scrtm.pb", ver(9), 0o600)
+				want = 9
+			}
+			args := []string{"endorse", "--quiet", "--uefi", fw, "--clspec", "5", "--snp_launch_vmsas", "1", "--timestamp", "2025-03-01T00:00:00Z"}
+			if tech != "tdx" {
+				args = append(args, "--add_snp")
+			}
+			if tech != "snp" {
+				args = append(args, "--add_tdx")
+			}
+			dc := &docComp{}
+			root := cmd.MakeApp(context.Background(), &cmd.AppComponents{Endorse: dc, SignatureRandom: rand.Reader})
+			root.SetOut(io.Discard)
+			root.SetErr(io.Discard)
+			root.SilenceErrors, root.SilenceUsage = true, true
+			root.SetArgs(args)
+			var xerr error
+			func() {
+				defer func() {
+					if p := recover(); p != nil {
+						xerr = fmt.Errorf("PANIC: %v", p)
+					}
+				}()
+				xerr = root.Execute()
+			}()
+			os.RemoveAll(dir)
+			rep := map[string]any{"technologies": tech, "scrtm_version_file": side, "args": args}
+			if dc.doc == nil || xerr != errStopAfterDoc {
+				run.Violation("cli-request-fails", fmt.Sprintf("endorse command (%s, version file %s) does not get to the document: %v", tech, side, xerr), rep)
+				continue
+			}
+			if (dc.doc.SevSnp != nil) != (tech != "tdx") || (dc.doc.Tdx != nil) != (tech != "snp") {
+				run.Violation("cli-technologies", fmt.Sprintf("endorse command requested %s but the document has sev_snp=%v tdx=%v", tech, dc.doc.SevSnp != nil, dc.doc.Tdx != nil), rep)
+			}
+			if dc.doc.SevSnp != nil && dc.doc.SevSnp.Svn != want {
+				run.Violation("cli-svn", fmt.Sprintf("endorse command (%s, version file %s): sev_snp.svn is %d, the version file says %d", tech, side, dc.doc.SevSnp.Svn, want), rep)
+			}
+			if dc.doc.Tdx != nil && dc.doc.Tdx.Svn != want {
+				run.Violation("cli-svn", fmt.Sprintf("endorse command (%s, version file %s): tdx.svn is %d, the version file says %d", tech, side, dc.doc.Tdx.Svn, want), rep)
+			}
+			run.Case("cli:"+tech+":"+side, true)
+		}
+	}
+	// machine shapes as the command line spells them: a comma list and a repeated flag both name every
+	// shape; the document carries, for each named shape and the default, the MRTD of this image
+	spellings := []struct {
+		name   string
+		args   []string
+		shapes []string
+	}{
+		{"one", []string{"--tdx_machine_shapes", "c3-standard-4"}, []string{"c3-standard-4"}},
+		{"comma", []string{"--tdx_machine_shapes=c3-standard-4,c3-standard-8"}, []string{"c3-standard-4", "c3-standard-8"}},
+		{"repeated", []string{"--tdx_machine_shapes", "c3-standard-8", "--tdx_machine_shapes", "c3-standard-88"}, []string{"c3-standard-8", "c3-standard-88"}},
+		{"mixed", []string{"--tdx_machine_shapes", "c3-standard-4,c3-standard-88", "--tdx_machine_shapes=c3-standard-8"}, []string{"c3-standard-4", "c3-standard-88", "c3-standard-8"}},
+	}
+	for _, sp := range spellings {
+		for _, ea := range []bool{false, true} {
+			dir, err := os.MkdirTemp("", "vk-c06-")
+			if err != nil {
+				run.Infra(err)
+				return
+			}
+			fw := filepath.Join(dir, "fw.fd")
+			os.WriteFile(fw, img2m, 0o600)
+			args := append([]string{"endorse", "--quiet", "--uefi", fw, "--clspec", "5", "--timestamp", "2025-03-01T00:00:00Z", "--add_tdx"}, sp.args...)
+			if ea {
+				args = append(args, "--tdx_include_early_accept")
+			}
+			dc := &docComp{}
+			root := cmd.MakeApp(context.Background(), &cmd.AppComponents{Endorse: dc, SignatureRandom: rand.Reader})
+			root.SetOut(io.Discard)
+			root.SetErr(io.Discard)
+			root.SilenceErrors, root.SilenceUsage = true, true
+			root.SetArgs(args)
+			var xerr error
+			func() {
+				defer func() {
+					if p := recover(); p != nil {
+						xerr = fmt.Errorf("PANIC: %v", p)
+					}
+				}()
+				xerr = root.Execute()
+			}()
+			os.RemoveAll(dir)
+			rep := map[string]any{"shapes_spelling": sp.name, "early_accept": ea, "args": args[4:]}
+			run.Case(fmt.Sprintf("cli:shapes:%s:%v", sp.name, ea), true)
+			if dc.doc == nil || xerr != errStopAfterDoc || dc.doc.Tdx == nil {
+				run.Violation("cli-request-fails", fmt.Sprintf("endorse command (shapes spelled %s) does not get to a TDX document: %v", sp.name, xerr), rep)
+				continue
+			}
+			type row struct {
+				ram         uint32
+				ea          bool
+				shape, mode string
+			}
+			var want []row
+			for _, s := range sp.shapes {
+				want = append(want, row{ramOf[s], false, s, "measure_all"})
+				if ea {
+					want = append(want, row{ramOf[s], true, s, "measure_all_ea"})
+				}
+			}
+			want = append(want, row{0, false, "", "default"})
+			got := dc.doc.Tdx.Measurements
+			if len(got) != len(want) {
+				run.Violation("cli-shapes", fmt.Sprintf("endorse command with shapes spelled %s (%v), early accept %v: the document has %d TDX rows, want %d (each named shape, plus the default)", sp.name, sp.shapes, ea, len(got), len(want)), rep)
+				continue
+			}
+			for i, w := range want {
+				ref, merr := mrtd(img2m, "2m", w.shape, w.mode)
+				if merr != nil {
+					run.Infra(merr)
+					return
+				}
+				if got[i].RamGib != w.ram || got[i].EarlyAccept != w.ea || !bytes.Equal(got[i].Mrtd, ref) {
+					run.Violation("cli-shapes", fmt.Sprintf("endorse command with shapes spelled %s (%v), early accept %v: TDX row %d is (ram %d, early accept %v) and %s the MRTD of shape %q", sp.name, sp.shapes, ea, i, got[i].RamGib, got[i].EarlyAccept,
+						map[bool]string{true: "is", false: "is not"}[bytes.Equal(got[i].Mrtd, ref)], w.shape), rep)
+				}
+			}
+		}
+	}
 }
